@@ -29,6 +29,7 @@ class Ctx:
 
     def __init__(self, P: Program):
         self.P = P
+        P.activate()
         self._cfg: Dict[str, CFG] = {}
         self._cg: Optional[CallGraph] = None
         self._noret: Dict[str, bool] = {}
